@@ -11,6 +11,9 @@ RULES = {
     "ph": {"title": "ph", "name": "ph", "logsource": {"category": "c", "product": "windows"}, "detection": {"s": {"User|expand": "%admins%", "h|re": "a.*b"}, "condition": "s"}},
     "two": {"title": "two", "name": "two", "logsource": {"category": "d"}, "detection": {"s1": {"k": 1}, "s2": {"k": 2}, "f_x": {"z": "q"}, "condition": ["s1 and not 1 of f_*", "1 of s*"]}},
     "bad": {"title": "bad", "name": "bad", "logsource": {"category": "c"}, "detection": {"s": {"User|expand": "%unknown%"}, "condition": "s"}},
+    "lin_h": {"title": "lin_h", "name": "lin_h", "logsource": {"category": "c", "product": "linux"}, "fields": ["h", "User"], "detection": {"s": {"h": "x", "q|fieldref": "h"}, "condition": "s"}},
+    "broken": {"title": "broken", "name": "broken", "logsource": {"category": "e"}, "detection": {"selection": {"a": 1}, "condition": "selection and not filter"}},
+    "fixed": {"title": "fixed", "name": "fixed", "logsource": {"category": "e"}, "detection": {"selection": {"a": 1}, "filter": {"b": 2}, "condition": ["selection and not filter", "selection"]}},
     "sel": {"title": "sel", "name": "sel", "logsource": {"category": "c", "product": "windows"}, "detection": {"sel_a": {"f": "1"}, "sel_b": {"f|exists": False}, "condition": "1 of sel_* and not sel_b"}},
 }
 FILTER = {"title": "F", "logsource": {"category": "c"}, "filter": {"rules": "any", "adm": {"User|startswith": "adm"}, "condition": "not adm"}}
@@ -19,6 +22,7 @@ PIPELINE = {"name": "p", "priority": 10, "vars": {"admins": ["root", "admin"]}, 
     {"id": "st", "type": "set_state", "key": "index", "val": "win", "rule_conditions": [{"type": "logsource", "product": "windows"}]},
     {"id": "vp", "type": "value_placeholders", "include": ["admins"]},
     {"id": "fm", "type": "field_name_mapping", "mapping": {"f": ["f1", "f2"], "User": "user.name"}},
+    {"id": "fmst", "type": "field_name_mapping", "mapping": {"h": "h_win"}, "field_name_conditions": [{"type": "processing_state", "key": "index", "val": "win"}]},
     {"id": "px", "type": "field_name_prefix", "prefix": "p."},
     {"id": "rs", "type": "replace_string", "regex": "^a$", "replacement": "aa"},
     {"id": "fail", "type": "rule_failure", "message": "unsupported", "rule_conditions": [{"type": "logsource", "category": "zzz"}]}],
@@ -73,20 +77,26 @@ class C15Bounded(Bounded):
                         res[r.name] = ("no-result", type(e).__name__)
             return res
         names = list(RULES)
+        # references first, each in a process of its own (forked from this one before anything was converted here): module-level and
+        # class-level state left by one conversion cannot reach another reference
+        from pyvc.api import fork_map
+
+        def ref(job):
+            bname, with_filter, n = job
+            B = backends()[bname]
+            docs = [RULES[n]] + ([FILTER] if with_filter else [])
+            try:
+                return list(outcome(B(ProcessingPipeline.from_dict(copy.deepcopy(PIPELINE)), collect_errors=True), docs)[n])
+            except Exception as e:
+                return ["crash", type(e).__name__]
+        jobs = [(bname, wf, n) for bname in backends() for wf in (False, True) for n in names]
+        refs = dict(zip(jobs, fork_map(ref, jobs)))
         for bname in backends():
             for with_filter in (False, True):
-                # reference: every rule alone, fresh backend class / object / pipeline
-                alone = {}
-                for n in names:
-                    B = backends()[bname]
-                    docs = [RULES[n]] + ([FILTER] if with_filter else [])
-                    try:
-                        alone[n] = outcome(B(ProcessingPipeline.from_dict(copy.deepcopy(PIPELINE)), collect_errors=True), docs)[n]
-                    except Exception as e:
-                        alone[n] = ("crash", type(e).__name__)
+                alone = {n: tuple(refs[(bname, with_filter, n)]) for n in names}
                 perms = list(itertools.permutations(names))
                 rnd.shuffle(perms)
-                perms = perms[: (6 if tier == "quick" else 40)]
+                perms = perms[: (8 if tier == "quick" else 60)]
                 B = backends()[bname]
                 b = B(ProcessingPipeline.from_dict(copy.deepcopy(PIPELINE)), collect_errors=True)      # ONE object for all orders (and a second instance of the class in between)
                 for perm in perms:
@@ -108,7 +118,23 @@ class C15Bounded(Bounded):
                             fail(f"{bname}:{n}", f"backend {bname}{' with filter' if with_filter else ''}: rule {n!r} converted in the order {list(perm)} gives {got.get(n)}, alone it gives {alone[n]}", [bname, list(perm), with_filter, n])
                 if len(samples) < 3:
                     samples.append({"backend": bname, "filter": with_filter, "alone": {k: str(v)[:120] for k, v in alone.items()}})
+        # backend options of one backend object are not visible to a later, different backend object
+        def probe(_):
+            pl = ProcessingPipeline.from_dict({"name": "q", "priority": 10, "transformations": [{"type": "value_placeholders", "include": ["backend_index"]}]})
+            rule = {"title": "o", "name": "o", "logsource": {"category": "c"}, "detection": {"s": {"User|expand": "%backend_index%"}, "condition": "s"}}
+            try:
+                return ["ok"] + [str(q) for q in TextQueryTestBackend(pl).convert(SigmaCollection.from_dicts([rule]))]
+            except SigmaError as e:
+                return ["error", type(e).__name__]
+        fresh = fork_map(probe, [0, 1])[0]
+        for user_pipeline in (None, ProcessingPipeline.from_dict({"name": "novars", "priority": 5, "transformations": [{"type": "field_name_suffix", "suffix": ".x"}]})):
+            ev += 1
+            nontriv += 1
+            TextQueryTestBackend(user_pipeline, index="prod", other_option="zz").convert(SigmaCollection.from_dicts([copy.deepcopy(RULES["plain"])]))
+            after = probe(0)
+            if after != fresh:
+                fail("backend-options", f"a rule using %backend_index% converts to {fresh} in a fresh process, and to {after} after another backend object was used with the option index='prod'", ["backend options"])
         return {"evaluations": ev, "distinct_nontrivial": nontriv, "failures": fails[:20], "failure_counts": seen,
-                "bound": f"{len(RULES)} rules (negation, CIDR, placeholders incl. an unresolvable one, multi-condition, selectors, exists) x {'6' if tier == 'quick' else '40'} orders x 3 backend configurations (default, not-equals mode with "
+                "bound": f"{len(RULES)} rules (negation, CIDR, placeholders incl. an unresolvable one, multi-condition, selectors, exists) x {'8' if tier == 'quick' else '60'} orders x 3 backend configurations (default, not-equals mode with "
                          "state defaults, no native CIDR / no not-exists) x with / without a filter; one backend and one pipeline object per configuration",
                 "rule": "distinct (backend, filter, order)", "samples": samples, "exhaustive": False}
